@@ -1036,4 +1036,747 @@ theorem saveNewBlock_quorum {P : List Nat → Blk → Prop} (C : Cfg) {s : St} (
       rw [if_neg hmined] at hnp
       exact key _ rfl rfl rfl rfl (Consts.refl s1) hnp
 
+
+theorem tryConfirm_quorum {P : List Nat → Blk → Prop} {C : Cfg} (hv : VOK C P) {s : St} (b : Blk)
+    (hb : P (depsAt s b.height) b) :
+    P (depsAt s b.height) (tryConfirm C s b).2 ∧ (tryConfirm C s b).2.id = b.id ∧
+    (tryConfirm C s b).2.height = b.height ∧ (tryConfirm C s b).2.miner = b.miner := by
+  unfold tryConfirm
+  split
+  · rename_i hneed
+    simp only
+    split
+    · exact ⟨hb, rfl, rfl, rfl⟩
+    · rename_i hT
+      refine ⟨?_, rfl, rfl, rfl⟩
+      have hself : s.self ∈ depsAt s b.height := by
+        unfold needConfirm at hneed
+        simp only at hneed
+        split at hneed
+        · cases hneed
+        · rename_i hc
+          simpa using hc
+      exact hv.self _ b s.self hb hself (by simpa [selfSig] using hT)
+  · exact ⟨hb, rfl, rfl, rfl⟩
+
+/-- `InsertBlock` either refuses the block (state unchanged, an error that is not a panic) or hands the
+    verified block — signed by a deputy of its term — to `TryConfirm` and `saveNewBlock`. -/
+theorem insertBlock_cases (C : Cfg) (s : St) (b : Blk) (valid : Bool) :
+    (∃ msg, insertBlock C s b valid = (s, msg) ∧ msg ≠ "panic") ∨
+    (recover b.hdr = some b.miner ∧ b.miner ∈ depsAt s b.height ∧
+      insertBlock C s b valid =
+        saveNewBlock C
+          (tryConfirm C s { b with confirms := (C.V (depsAt s b.height) { b with confirms := [] } b.confirms).1 }).1
+          (tryConfirm C s { b with confirms := (C.V (depsAt s b.height) { b with confirms := [] } b.confirms).1 }).2) := by
+  unfold insertBlock
+  split
+  · exact Or.inl ⟨_, rfl, by decide⟩
+  split
+  · exact Or.inl ⟨_, rfl, by decide⟩
+  split
+  · exact Or.inl ⟨_, rfl, by decide⟩
+  split
+  · exact Or.inl ⟨_, rfl, by decide⟩
+  rename_i hsig
+  split
+  · exact Or.inl ⟨_, rfl, by decide⟩
+  split
+  · exact Or.inl ⟨_, rfl, by decide⟩
+  right
+  refine ⟨?_, ?_, rfl⟩
+  · apply Classical.byContradiction; intro h; exact hsig (Or.inl h)
+  · apply Classical.byContradiction; intro h; exact hsig (Or.inr h)
+
+theorem insertBlock_quorum {P : List Nat → Blk → Prop} {C : Cfg} (hv : VOK C P) {s : St} (b : Blk) (valid : Bool)
+    (hi : Inv s) (hp : PInv P s) (hnp : (insertBlock C s b valid).2 ≠ "panic") :
+    PInv P (insertBlock C s b valid).1 ∧
+    ((insertBlock C s b valid).1.stable.id = s.stable.id ∨ Q P (insertBlock C s b valid).1) := by
+  rcases insertBlock_cases C s b valid with ⟨msg, e, _⟩ | ⟨h1, h2, e⟩
+  · rw [e]; exact ⟨hp, Or.inl rfl⟩
+  rw [e] at hnp ⊢
+  have hfresh := hv.fresh (depsAt s b.height) b h1 h2
+  obtain ⟨pt, tid, thh, tm⟩ := tryConfirm_quorum hv
+    { b with confirms := (C.V (depsAt s b.height) { b with confirms := [] } b.confirms).1 } hfresh
+  obtain ⟨i1, _, e1, e2, k, e3⟩ := tryConfirm_spec C
+    { b with confirms := (C.V (depsAt s b.height) { b with confirms := [] } b.confirms).1 } hi
+  obtain ⟨pp, _⟩ := pq_of_same (P := P) e1 e3 e2 k
+  have hd : ∀ h, depsAt (tryConfirm C s
+      { b with confirms := (C.V (depsAt s b.height) { b with confirms := [] } b.confirms).1 }).1 h = depsAt s h :=
+    depsAt_congr' k e2
+  have r := saveNewBlock_quorum (P := P) C (tryConfirm C s
+      { b with confirms := (C.V (depsAt s b.height) { b with confirms := [] } b.confirms).1 }).2 i1 (pp hp)
+    (by rw [hd, thh, tm]; exact h2) (by rw [hd, thh]; exact pt) hnp
+  refine ⟨r.1, ?_⟩
+  rcases r.2 with e | q
+  · left; rw [e, e3]
+  · exact Or.inr q
+
+theorem mineBlock_quorum {P : List Nat → Blk → Prop} {C : Cfg} (hv : VOK C P) {s : St} (b : Blk)
+    (hi : Inv s) (hp : PInv P s) (hnp : (mineBlock C s b).2 ≠ "panic") :
+    PInv P (mineBlock C s b).1 ∧ ((mineBlock C s b).1.stable.id = s.stable.id ∨ Q P (mineBlock C s b).1) := by
+  unfold mineBlock at hnp ⊢
+  split
+  · exact ⟨hp, Or.inl rfl⟩
+  · rename_i hself
+    rw [if_neg hself] at hnp
+    have hs : s.self ∈ depsAt s (s.headHeight + 1) := Decidable.not_not.1 hself
+    exact saveNewBlock_quorum C _ hi hp hs (hv.mined _ _ rfl hs rfl) hnp
+
+theorem updateForkForConfirm_fields (s : St) :
+    (updateForkForConfirm s).tree = s.tree ∧ (updateForkForConfirm s).stable = s.stable ∧
+    (updateForkForConfirm s).terms = s.terms ∧ Consts s (updateForkForConfirm s) := by
+  unfold updateForkForConfirm
+  split
+  · obtain ⟨e1, e2, _, e4, k⟩ := setHead_fields s (some (chooseNewFork s.stable s.tree))
+    exact ⟨e1, e2, e4, k⟩
+  · exact ⟨rfl, rfl, rfl, Consts.refl s⟩
+
+theorem afterConfirm_quorum {P : List Nat → Blk → Prop} (C : Cfg) {s1 : St} (nb : Blk) (height : Nat) (hi : Inv s1)
+    (hp : PInv P s1) (hb : ∀ c ∈ s1.tree, c.id = nb.id → c = nb) (hnp : (afterConfirm C s1 nb height).2 ≠ "panic") :
+    PInv P (afterConfirm C s1 nb height).1 ∧
+    ((afterConfirm C s1 nb height).1.stable.id = s1.stable.id ∨ Q P (afterConfirm C s1 nb height).1) := by
+  unfold afterConfirm at hnp ⊢
+  split
+  · rename_i hgt
+    rw [if_pos hgt] at hnp
+    simp only at hnp ⊢
+    split
+    · rename_i herr
+      rcases updateStableFull_cases C s1 nb hi.toTInv hi.terms with ⟨e, _⟩ | ⟨c, _, _, _, _, ⟨ep, _⟩ | ⟨ec, _⟩⟩
+      · rw [e]; exact ⟨hp, Or.inl rfl⟩
+      · rw [ep] at herr; cases herr
+      · rw [ec] at herr; cases herr
+    · rename_i herr
+      rw [if_neg herr] at hnp
+      split
+      · rename_i hpan; rw [if_pos hpan] at hnp; exact absurd rfl hnp
+      · rename_i hpan
+        obtain ⟨hp2, hq2, _⟩ := updateStableFull_quorum C hi.toTInv hi.terms hp hb hpan
+        obtain ⟨f1, f2, f3, k⟩ := updateForkForConfirm_fields (updateStableFull C s1 nb).1
+        obtain ⟨pp, qq⟩ := pq_of_same (P := P) f1 f2 f3 k
+        refine ⟨pp hp2, ?_⟩
+        rcases hq2 with e | q
+        · left; rw [f2, e]
+        · exact Or.inr (qq q)
+  · exact ⟨hp, Or.inl rfl⟩
+
+theorem saveConfirm_pinv {P : List Nat → Blk → Prop} {s : St} {id : Nat} {b : Blk} (valid : List Sig) (hi : TInv s)
+    (hp : PInv P s) (hg : getBlock s id = some b)
+    (hnb : b ∈ s.tree → P (depsAt s b.height) (appendConfirm b valid)) :
+    PInv P (saveConfirm s b valid).1 ∧
+    (∀ c ∈ (saveConfirm s b valid).1.tree, c.id = (saveConfirm s b valid).2.id → c = (saveConfirm s b valid).2) := by
+  have hshape := appendConfirm_shape valid b
+  have hrest := appendConfirm_rest valid b
+  obtain ⟨_, _, _, _, _, _, eterms, k⟩ := saveConfirm_spec b valid hi
+  have hd : ∀ h, depsAt (saveConfirm s b valid).1 h = depsAt s h := depsAt_congr' k eterms
+  rcases getBlock_some hg with h1 | ⟨h1, h2⟩
+  · obtain ⟨hbm, hbid⟩ := findBlk_some h1
+    have hf : findBlk s.tree b.id = some b := by rw [hbid]; exact h1
+    have htree : (saveConfirm s b valid).1.tree = replaceBlk s.tree (appendConfirm b valid) := by
+      unfold saveConfirm; simp only [hf]
+    have hnbv : (saveConfirm s b valid).2 = appendConfirm b valid := by
+      unfold saveConfirm; simp only [hf]
+    -- every entry with the id of `b` IS `b`, so it becomes `appendConfirm b valid`
+    have key : ∀ x ∈ s.tree, x.id = (appendConfirm b valid).id → replFn (appendConfirm b valid) x = appendConfirm b valid := by
+      intro x hx hxid
+      have hxb : x = b := WF.unique hi.wf x hx b hbm (hxid.trans hshape.1)
+      unfold replFn
+      rw [if_pos hxid, hxb]
+      exact blk_ext hshape.1.symm hshape.2.1.symm hshape.2.2.1.symm hshape.2.2.2.1.symm
+        hrest.1.symm hshape.2.2.2.2.symm rfl hrest.2.1.symm hrest.2.2.symm
+    refine ⟨?_, ?_⟩
+    · intro c hc
+      rw [htree, replaceBlk_eq] at hc
+      rw [hd]
+      rcases List.mem_map.1 hc with ⟨x, hx, rfl⟩
+      by_cases hxid : x.id = (appendConfirm b valid).id
+      · rw [key x hx hxid, hshape.2.2.1, hshape.2.2.2.1]
+        exact ⟨(hp b hbm).1, hnb hbm⟩
+      · have : replFn (appendConfirm b valid) x = x := by unfold replFn; rw [if_neg hxid]
+        rw [this]; exact hp x hx
+    · intro c hc hcid
+      rw [htree, replaceBlk_eq] at hc
+      rw [hnbv] at hcid ⊢
+      rcases List.mem_map.1 hc with ⟨x, hx, rfl⟩
+      have hxid : x.id = (appendConfirm b valid).id := (replaceBlk_shape _ x).1.symm.trans hcid
+      exact key x hx hxid
+  · have hbid : b.id = id := (findBlk_some h2).2
+    have hf : findBlk s.tree b.id = none := by rw [hbid]; exact h1
+    have htree : (saveConfirm s b valid).1.tree = s.tree := by
+      unfold saveConfirm; simp only [hf]
+    have hnbv : (saveConfirm s b valid).2 = appendConfirm b valid := by
+      unfold saveConfirm; simp only [hf]
+    refine ⟨?_, ?_⟩
+    · intro c hc
+      rw [htree] at hc
+      rw [hd]; exact hp c hc
+    · intro c hc hcid
+      rw [htree] at hc
+      rw [hnbv] at hcid
+      exact absurd (hcid.trans hshape.1) (findBlk_none hf c hc)
+
+theorem insertConfirms_quorum {P : List Nat → Blk → Prop} {C : Cfg} (hv : VOK C P) {s : St} (id height : Nat)
+    (sigs : List Sig) (hi : Inv s) (hp : PInv P s) (hnp : (insertConfirms C s id height sigs).2 ≠ "panic") :
+    PInv P (insertConfirms C s id height sigs).1 ∧
+    ((insertConfirms C s id height sigs).1.stable.id = s.stable.id ∨ Q P (insertConfirms C s id height sigs).1) := by
+  unfold insertConfirms at hnp ⊢
+  split
+  · exact ⟨hp, Or.inl rfl⟩
+  split
+  · exact ⟨hp, Or.inl rfl⟩
+  rename_i b hg
+  split
+  · exact ⟨hp, Or.inl rfl⟩
+  split
+  · exact ⟨hp, Or.inl rfl⟩
+  simp only at hnp ⊢
+  split
+  · exact ⟨hp, Or.inl rfl⟩
+  rename_i hx1 _ hx3 hx4 hx5
+  simp only [hx1, hg, hx3, hx4, hx5] at hnp
+  obtain ⟨hp1, hu⟩ := saveConfirm_pinv (C.V (depsAt s b.height) b sigs).1 hi.toTInv hp hg
+    (fun hbm => hv.append _ b sigs (hp b hbm).2)
+  obtain ⟨i1, _⟩ := saveConfirm_inv b (C.V (depsAt s b.height) b sigs).1 hi
+  have r := afterConfirm_quorum (P := P) C (saveConfirm s b (C.V (depsAt s b.height) b sigs).1).2 height i1 hp1 hu hnp
+  have st1 := (saveConfirm_spec b (C.V (depsAt s b.height) b sigs).1 hi.toTInv).2.1
+  refine ⟨r.1, ?_⟩
+  rcases r.2 with e | q
+  · left; rw [e, st1]
+  · exact Or.inr q
+
+theorem reopen_quorum {P : List Nat → Blk → Prop} {s : St} (hi : Inv s) (hp : PInv P s) :
+    PInv P (reopen s).1 ∧ (reopen s).1.stable.id = s.stable.id := by
+  obtain ⟨c, rest, hcm, hcid, _⟩ := hi.top
+  unfold reopen
+  split
+  · exact ⟨hp, rfl⟩
+  · split
+    · exact ⟨hp, rfl⟩
+    · rename_i top rest' htop
+      have htc : top = c := by rw [hcm] at htop; cases htop; rfl
+      subst htc
+      exact ⟨fun b hb => (by cases hb), hcid⟩
+
+theorem step_quorum {P : List Nat → Blk → Prop} {C : Cfg} (hv : VOK C P) {s : St} (op : Op) (hi : Inv s)
+    (hp : PInv P s) (hnp : (step C s op).2 ≠ "panic") :
+    PInv P (step C s op).1 ∧ ((step C s op).1.stable.id = s.stable.id ∨ Q P (step C s op).1) := by
+  cases op with
+  | block b valid => exact insertBlock_quorum hv b valid hi hp hnp
+  | mine b => exact mineBlock_quorum hv b hi hp hnp
+  | confirms id h sigs => exact insertConfirms_quorum hv id h sigs hi hp hnp
+  | reopen => exact ⟨(reopen_quorum hi hp).1, Or.inl (reopen_quorum hi hp).2⟩
+
+theorem runP_pinv {P : List Nat → Blk → Prop} {C : Cfg} (hv : VOK C P) :
+    ∀ (ops : List Op) {s s' : St}, Inv s → PInv P s → runP C s ops = some s' → PInv P s'
+  | [], _, _, _, hp, e => by cases e; exact hp
+  | op :: ops, s, s', hi, hp, e => by
+    rw [runP] at e
+    split at e
+    · cases e
+    · rename_i hq
+      exact runP_pinv hv ops ((step_spec C op hi).2.2 hq) (step_quorum hv op hi hp hq).1 e
+
+theorem pinv_reachable {P : List Nat → Blk → Prop} {C : Cfg} (hv : VOK C P) {s : St} (h : Reach C s) : PInv P s := by
+  obtain ⟨dc, T, I, self, g, term0, ops, hT, e⟩ := h
+  exact runP_pinv hv ops (inv_init dc T I self g term0 hT) (fun b hb => by cases hb) e
+
+/-- whenever the stable pointer moves (and the operation did not panic), the block it moves to has the
+    stored-signature property `P`, passed `IsConfirmEnough`, and its term is known. -/
+theorem stable_change_has {P : List Nat → Blk → Prop} {C : Cfg} (hv : VOK C P) {s : St} (h : Reach C s) (op : Op)
+    (hnp : (step C s op).2 ≠ "panic") (hne : (step C s op).1.stable.id ≠ s.stable.id) : Q P (step C s op).1 := by
+  rcases (step_quorum hv op (inv_reachable h) (pinv_reachable hv h) hnp).2 with e | q
+  · exact absurd e hne
+  · exact q
+
+
+/-! ## blocks of an unknown term are never stored; the stable pointer never moves to one -/
+
+theorem vok_trivial (C : Cfg) : VOK C (fun _ _ => True) :=
+  ⟨fun _ _ _ _ => trivial, fun _ _ _ _ => trivial, fun _ _ _ _ _ _ => trivial, fun _ _ _ _ _ => trivial⟩
+
+/-- every block of the unconfirmed tree was signed by a deputy of its term: the term is known to the
+    node and `TwoThirdDeputyCount` of its height is at least 1 — the degenerate
+    `IsConfirmEnough` of `enough_with_unknown_term` is never evaluated on a stored block. -/
+theorem stored_blocks_term_known {C : Cfg} {s : St} (h : Reach C s) :
+    ∀ b ∈ s.tree, b.miner ∈ depsAt s b.height ∧ 0 < twoThirds (depsAt s b.height).length := by
+  intro b hb
+  have hm := (pinv_reachable (vok_trivial C) h b hb).1
+  refine ⟨hm, ?_⟩
+  have : 0 < (depsAt s b.height).length := List.length_pos_of_mem hm
+  unfold twoThirds; omega
+
+/-- and a block that becomes stable (the operation did not panic) belongs to a known term. -/
+theorem stable_term_known {C : Cfg} {s : St} (h : Reach C s) (op : Op) (hnp : (step C s op).2 ≠ "panic")
+    (hne : (step C s op).1.stable.id ≠ s.stable.id) :
+    (step C s op).1.stable.miner ∈ depsAt (step C s op).1 (step C s op).1.stable.height :=
+  (stable_change_has (vok_trivial C) h op hnp hne).1
+
+/-! ## the code as it is now (commits d34eb0a and 262c027): both tests compare SIGNERS -/
+
+/-- the signers of a stored block (miner + confirms) are pairwise different deputies of its term. -/
+structure NodeOK (deps : List Nat) (b : Blk) : Prop where
+  nodup : (signersOf b).Nodup
+  deputies : ∀ s ∈ b.confirms, ∃ d, recover s = some d ∧ d ∈ deps
+  hdr : recover b.hdr = some b.miner ∧ b.miner ∈ deps
+
+def AccF (deps : List Nat) (b : Blk) (valid : List Sig) : Prop :=
+  (signersOf b ++ valid.filterMap recover).Nodup ∧ ∀ s ∈ valid, ∃ d, recover s = some d ∧ d ∈ deps
+
+theorem filterMap_append_singleton {l : List Sig} {s : Sig} {d : Nat} (hd : recover s = some d) :
+    (l ++ [s]).filterMap recover = l.filterMap recover ++ [d] := by
+  rw [List.filterMap_append, List.filterMap_cons_some hd, List.filterMap_nil]
+
+theorem verifyLoopFixed_acc (deps : List Nat) (b : Blk) (hh : recover b.hdr = some b.miner) :
+    ∀ (sigs valid : List Sig) (e : CErr), AccF deps b valid → AccF deps b (verifyLoopFixed deps b sigs valid e).1
+  | [], _, _, h => h
+  | s :: rest, valid, e, h => by
+    simp only [verifyLoopFixed]
+    split
+    · exact verifyLoopFixed_acc deps b hh rest valid _ h
+    · split
+      · exact verifyLoopFixed_acc deps b hh rest valid _ h
+      · rename_i d hd
+        split
+        · exact verifyLoopFixed_acc deps b hh rest valid _ h
+        · rename_i hdn
+          split
+          · exact verifyLoopFixed_acc deps b hh rest valid _ h
+          · split
+            · exact verifyLoopFixed_acc deps b hh rest valid _ h
+            · rename_i hnew
+              apply verifyLoopFixed_acc deps b hh rest (valid ++ [s]) e
+              have hn1 : ¬ recover b.hdr = some d := fun x => hnew (Or.inl x)
+              have hn2 : d ∉ b.confirms.filterMap recover := fun x => hnew (Or.inr (Or.inl x))
+              have hn3 : d ∉ valid.filterMap recover := fun x => hnew (Or.inr (Or.inr x))
+              refine ⟨?_, ?_⟩
+              · rw [filterMap_append_singleton hd, ← List.append_assoc]
+                refine List.nodup_append.2 ⟨h.1, List.nodup_cons.2 ⟨by simp, List.nodup_nil⟩, ?_⟩
+                intro a ha c hc hac
+                rw [List.mem_singleton] at hc
+                subst hc; subst hac
+                rcases List.mem_append.1 ha with ha | ha
+                · rcases List.mem_cons.1 ha with ha | ha
+                  · exact hn1 (by rw [hh, ha])
+                  · exact hn2 ha
+                · exact hn3 ha
+              · intro x hx
+                rcases List.mem_append.1 hx with hx | hx
+                · exact h.2 x hx
+                · rw [List.mem_singleton] at hx; subst hx; exact ⟨d, hd, Decidable.not_not.1 hdn⟩
+
+theorem appendConfirm_nodeOK (deps : List Nat) : ∀ (valid : List Sig) (b : Blk), NodeOK deps b →
+    (signersOf b ++ valid.filterMap recover).Nodup → (∀ s ∈ valid, ∃ d, recover s = some d ∧ d ∈ deps) →
+    NodeOK deps (appendConfirm b valid)
+  | [], _, h, _, _ => h
+  | s :: rest, b, h, hnd, hv => by
+    simp only [appendConfirm]
+    obtain ⟨d, hd, hdn⟩ := hv s List.mem_cons_self
+    have hrest : ∀ x ∈ rest, ∃ d, recover x = some d ∧ d ∈ deps := fun x hx => hv x (List.mem_cons_of_mem _ hx)
+    rw [List.filterMap_cons_some hd] at hnd
+    split
+    · apply appendConfirm_nodeOK deps rest b h _ hrest
+      exact hnd.sublist (List.Sublist.append_left (List.sublist_cons_self _ _) _)
+    · have e1 : signersOf { b with confirms := b.confirms ++ [s] } = signersOf b ++ [d] := by
+        unfold signersOf
+        show b.miner :: (b.confirms ++ [s]).filterMap recover = _
+        rw [filterMap_append_singleton hd]; rfl
+      have hnd' : ((signersOf b ++ [d]) ++ rest.filterMap recover).Nodup := by
+        rw [List.append_assoc]; exact hnd
+      apply appendConfirm_nodeOK deps rest _ _ (by rw [e1]; exact hnd') hrest
+      refine ⟨?_, ?_, h.hdr⟩
+      · rw [e1]; exact hnd'.sublist (List.sublist_append_left _ _)
+      · intro x hx
+        have hx' : x ∈ b.confirms ++ [s] := hx
+        rcases List.mem_append.1 hx' with hx' | hx'
+        · exact h.deputies x hx'
+        · rw [List.mem_singleton] at hx'; subst hx'; exact ⟨d, hd, hdn⟩
+
+/-- the live pair of tests keeps the signers of every stored block pairwise different. -/
+theorem vok_signer : VOK cfgSigner NodeOK where
+  fresh := by
+    intro deps b h1 h2
+    have h0 : AccF deps { b with confirms := [] } [] := by
+      refine ⟨?_, fun _ h => by cases h⟩
+      show ([b.miner] ++ []).Nodup
+      simp
+    have hacc := verifyLoopFixed_acc deps { b with confirms := [] } h1 b.confirms [] .none h0
+    refine ⟨?_, hacc.2, ⟨h1, h2⟩⟩
+    have := hacc.1
+    exact this
+  append := by
+    intro deps b sigs h
+    have h0 : AccF deps b [] := ⟨by rw [List.filterMap_nil, List.append_nil]; exact h.nodup, fun _ hx => by cases hx⟩
+    have hacc := verifyLoopFixed_acc deps b h.hdr.1 sigs [] .none h0
+    exact appendConfirm_nodeOK deps _ b h hacc.1 hacc.2
+  self := by
+    intro deps b d h hd hT
+    have hT' : selfTestSigner b ⟨some d, 0⟩ d = false := hT
+    unfold selfTestSigner at hT'
+    simp only [Bool.or_eq_false_iff, decide_eq_false_iff_not] at hT'
+    obtain ⟨⟨_, h2⟩, h3⟩ := hT'
+    have e1 : signersOf { b with confirms := b.confirms ++ [⟨some d, 0⟩] } = signersOf b ++ [d] := by
+      unfold signersOf
+      show b.miner :: (b.confirms ++ [(⟨some d, 0⟩ : Sig)]).filterMap recover = _
+      rw [filterMap_append_singleton (s := (⟨some d, 0⟩ : Sig)) (d := d) rfl]; rfl
+    refine ⟨?_, ?_, h.hdr⟩
+    · rw [e1]
+      refine List.nodup_append.2 ⟨h.nodup, List.nodup_cons.2 ⟨by simp, List.nodup_nil⟩, ?_⟩
+      intro a ha c hc hac
+      rw [List.mem_singleton] at hc
+      subst hc; subst hac
+      rcases List.mem_cons.1 ha with ha | ha
+      · exact h2 (by rw [h.hdr.1, ha])
+      · exact h3 ha
+    · intro x hx
+      have hx' : x ∈ b.confirms ++ [⟨some d, 0⟩] := hx
+      rcases List.mem_append.1 hx' with hx' | hx'
+      · exact h.deputies x hx'
+      · rw [List.mem_singleton] at hx'; subst hx'; exact ⟨d, rfl, hd⟩
+  mined := by
+    intro deps b h1 h2 hc
+    refine ⟨?_, ?_, ⟨h1, h2⟩⟩
+    · unfold signersOf; rw [hc]; simp
+    · intro s hs; rw [hc] at hs; cases hs
+
+theorem depsAt_length_le (s : St) (h : Nat) : (depsAt s h).length ≤ s.dc := by
+  unfold depsAt
+  split
+  · rw [List.length_take]; exact Nat.min_le_left _ _
+  · exact Nat.zero_le _
+
+theorem enough_le {dc : Nat} {deps : List Nat} {b : Blk} (hn : deps.length ≤ dc) (h : isConfirmEnough dc deps b = true) :
+    twoThirds deps.length ≤ b.confirms.length + 1 := by
+  unfold isConfirmEnough at h
+  simp only [Bool.or_eq_true, decide_eq_true_eq] at h
+  have := twoThirds_mono hn
+  omega
+
+/-- HEADLINE — the FULL quorum theorem, for the code as it is (`cfgSigner`: `VerifyNewConfirms` since
+    commit d34eb0a and `TryConfirm` / `tryConfirmStable` since commit 262c027 compare signers).
+    Whenever the stable pointer moves to a block `b`, at least ⌈2n/3⌉ DISTINCT deputies of the term in
+    charge of `b`'s height (n of them), the miner included, signed `b` — for every deputy set and
+    term schedule (term boundaries included), block tree, confirmation multiset (re-encodings,
+    re-signings, non-deputies, unknown blocks), arrival order, and for a receiver that is an outsider
+    or a deputy, confirms and mines itself and is restarted. (Guard: no operation of the history ended
+    in a Go panic — see `head_not_descendant_after_snapshot_panic`.) -/
+theorem quorum_distinct {s : St} (h : Reach cfgSigner s) (op : Op) (hnp : (step cfgSigner s op).2 ≠ "panic")
+    (hne : (step cfgSigner s op).1.stable.id ≠ s.stable.id) :
+    let s' := (step cfgSigner s op).1
+    twoThirds (depsAt s' s'.stable.height).length ≤ distinctCount (depsAt s' s'.stable.height) s'.stable := by
+  intro s'
+  obtain ⟨_, hs, hen⟩ := stable_change_has vok_signer h op hnp hne
+  have hin : ∀ d ∈ signersOf s'.stable, d ∈ depsAt s' s'.stable.height := by
+    intro d hd
+    rcases List.mem_cons.1 hd with rfl | hd
+    · exact hs.hdr.2
+    · rcases List.mem_filterMap.1 hd with ⟨x, hx, hxd⟩
+      obtain ⟨d', hd', hlt'⟩ := hs.deputies x hx
+      rw [hd'] at hxd; cases hxd; exact hlt'
+  rw [length_eq_distinctCount hs.nodup hin]
+  have h3 : (signersOf s'.stable).length = s'.stable.confirms.length + 1 := by
+    unfold signersOf
+    rw [List.length_cons, filterMap_recover_length (fun x hx => (hs.deputies x hx).imp fun _ hd => hd.1)]
+  rw [h3]
+  exact enough_le (depsAt_length_le s' _) hen
+
+/-! ## the code as it was: refutations (kernel-checked witnesses on the old model variants) -/
+
+/-- REFUTATION of the quorum statement on the model of THE CODE BEFORE /repo COMMIT d34eb0a
+    (`cfgBytes`: bytes-only de-duplication), 3 deputies, receiver an outsider (node 1000):
+    block 1 (miner = node 0, canonical header signature `⟨0,0⟩`) arrives, then ONE confirmation packet
+    holding the re-encoding `⟨0,1⟩` of the miner's own signature. The stable pointer moves to block 1
+    although one deputy out of three signed it (need 2). Anybody can forge that packet. -/
+theorem quorum_distinct_refuted :
+    let s := run cfgBytes (init 3 1000000 1000 1000 0 [0, 1, 2]) [.block ⟨1, 0, 1, 0, 1, ⟨some 0, 0⟩, [], [], false⟩ true]
+    let s' := (step cfgBytes s (.confirms 1 1 [⟨some 0, 1⟩])).1
+    s'.stable.id = 1 ∧ distinctCount (depsAt s' 1) s'.stable = 1 ∧ twoThirds (depsAt s' 1).length = 2 := by decide
+
+/-- (code before commit d34eb0a) the same through a block that CARRIES the forged confirmation. -/
+theorem quorum_distinct_refuted_carried :
+    let s := init 3 1000000 1000 1000 0 [0, 1, 2]
+    let s' := (step cfgBytes s (.block ⟨1, 0, 1, 0, 1, ⟨some 0, 0⟩, [⟨some 0, 1⟩], [], false⟩ true)).1
+    s'.stable.id = 1 ∧ distinctCount (depsAt s' 1) s'.stable = 1 ∧ twoThirds (depsAt s' 1).length = 2 := by decide
+
+/-- (code before commit d34eb0a) a deputy other than the miner doubling its own vote (another nonce). -/
+theorem quorum_distinct_refuted_resigned :
+    let s := run cfgBytes (init 4 1000000 1000 1000 0 [0, 1, 2, 3]) [.block ⟨1, 0, 1, 0, 1, ⟨some 0, 0⟩, [], [], false⟩ true]
+    let s' := (step cfgBytes s (.confirms 1 1 [⟨some 2, 0⟩, ⟨some 2, 7⟩])).1
+    s'.stable.id = 1 ∧ distinctCount (depsAt s' 1) s'.stable = 2 ∧ twoThirds (depsAt s' 1).length = 3 := by decide
+
+/-- REFUTATION on the model of THE CODE BETWEEN COMMITS d34eb0a AND 262c027 (`cfgVerifierFixed`:
+    VerifyNewConfirms by signer, TryConfirm still by bytes), 4 deputies, the receiver IS deputy 1:
+    block 1 (miner 0) comes carrying the receiver's own confirmation re-encoded by a peer `⟨1,1⟩` (the
+    node had signed the block and crashed before storing it). VerifyNewConfirms keeps it, TryConfirm
+    appends the canonical `⟨1,0⟩`: 3 signatures, 2 distinct deputies of 4 (need 3), the block is stable. -/
+theorem quorum_own_confirm_twice_refuted :
+    let s := init 4 1000000 1000 1 0 [0, 1, 2, 3]
+    let s' := (step cfgVerifierFixed s (.block ⟨1, 0, 1, 0, 1, ⟨some 0, 0⟩, [⟨some 1, 1⟩], [], false⟩ true)).1
+    s'.stable.id = 1 ∧ s'.stable.confirms = [⟨some 1, 1⟩, ⟨some 1, 0⟩] ∧
+    distinctCount (depsAt s' 1) s'.stable = 2 ∧ twoThirds (depsAt s' 1).length = 3 := by decide
+
+/-- the current code refuses both forgeries: the stable pointer stays at genesis. -/
+example :
+    let s := run cfgSigner (init 3 1000000 1000 1000 0 [0, 1, 2]) [.block ⟨1, 0, 1, 0, 1, ⟨some 0, 0⟩, [], [], false⟩ true]
+    (step cfgSigner s (.confirms 1 1 [⟨some 0, 1⟩])).2 = "ErrNoNewConfirm" ∧
+    (step cfgSigner s (.confirms 1 1 [⟨some 0, 1⟩])).1.stable.id = 0 := by decide
+
+example :
+    let s := init 4 1000000 1000 1 0 [0, 1, 2, 3]
+    let s' := (step cfgSigner s (.block ⟨1, 0, 1, 0, 1, ⟨some 0, 0⟩, [⟨some 1, 1⟩], [], false⟩ true)).1
+    s'.stable.id = 0 ∧ s'.tree.map (fun b => b.confirms) = [[⟨some 1, 1⟩]] ∧ s'.lastSigId = 1 := by decide
+
+/-- non-vacuity of `quorum_distinct` and of the structural theorems (current code, the receiver is
+    deputy 2 of 4 and confirms what it stores): blocks 1 and 3 form the head fork, each with the node's
+    own confirmation; block 2, a sibling of 1, arrives with the confirmations of deputies 0 (twice, the
+    re-encoding is dropped) and 3: with its miner that is a quorum of 3 distinct deputies, the node does
+    not sign it (it signed the other fork), the fork 1–3 is pruned and the head moves over. -/
+example :
+    let ops := [Op.block ⟨1, 0, 1, 0, 5, ⟨some 0, 0⟩, [], [], false⟩ true, Op.block ⟨3, 1, 2, 1, 4, ⟨some 1, 0⟩, [], [], false⟩ true]
+    let s := run cfgSigner (init 4 1000000 1000 2 0 [0, 1, 2, 3]) ops
+    let r := step cfgSigner s (.block ⟨2, 0, 1, 1, 3, ⟨some 1, 0⟩, [⟨some 0, 0⟩, ⟨some 0, 1⟩, ⟨some 3, 0⟩], [], false⟩ true)
+    (runP cfgSigner (init 4 1000000 1000 2 0 [0, 1, 2, 3]) ops).isSome = true ∧
+    s.headId = 3 ∧ s.tree.map (fun b => b.confirms) = [[⟨some 2, 0⟩], [⟨some 2, 0⟩]] ∧ s.lastSigId = 3 ∧
+    r.2 = "ok" ∧ r.1.stable.id = 2 ∧ r.1.stable.confirms = [⟨some 0, 0⟩, ⟨some 3, 0⟩] ∧ r.1.headId = 2 ∧ r.1.tree = [] ∧
+    distinctCount (depsAt r.1 1) r.1.stable = 3 ∧ twoThirds (depsAt r.1 1).length = 3 := by decide
+
+/-- non-vacuity across a term boundary (term length 2, interim 0, 2 seats, candidates 0,1,2): block 2 is
+    the snapshot block and names the next term [2,0]; when it is stable the node knows two terms, and
+    height 3 is signed by the deputies [2,0]: node 1 is not a deputy any more, node 2 is. -/
+example :
+    let s := run cfgSigner (init 2 2 0 1000 0 [0, 1, 2])
+      [.block ⟨1, 0, 1, 0, 5, ⟨some 0, 0⟩, [⟨some 1, 0⟩], [], false⟩ true,
+       .block ⟨2, 1, 2, 1, 4, ⟨some 1, 0⟩, [⟨some 0, 0⟩], [2, 0], false⟩ true]
+    s.stable.id = 2 ∧ s.terms = [[0, 1, 2], [2, 0]] ∧ depsAt s 2 = [0, 1] ∧ depsAt s 3 = [2, 0] ∧
+    (step cfgSigner s (.block ⟨3, 2, 3, 1, 3, ⟨some 1, 0⟩, [], [], false⟩ true)).2 = "ErrVerifyBlockFailed" ∧
+    (step cfgSigner s (.block ⟨4, 2, 3, 2, 3, ⟨some 2, 0⟩, [⟨some 1, 0⟩, ⟨some 0, 0⟩], [], false⟩ true)).1.stable.id = 4 := by
+  decide
+
+
+/-! ## Go panics on the stable-advance path
+
+  Two panic sites are modelled: `needSwitchFork` (`% TwoThirdDeputyCount(head height)`, integer divide
+  by zero for an unknown term) and `saveSnapshot → NewTermRecord / SaveSnapshot` (bad deputy list of a
+  snapshot block, C10's finding). The first never fires; the second is the `Reach` guard. The panics of
+  `blockCommit` (nil item / stale LastConfirm) are not modelled. -/
+
+/-- `needSwitchFork` never divides by zero: it is only evaluated for a candidate head that is a stored
+    block (whose term is known, `stored_blocks_term_known`) — when the candidate is the stable block
+    itself the head is higher and the modulo is not reached. -/
+theorem needSwitchFork_no_panic {s : St} (hp : PInv (fun _ _ => True) s) (nb : Blk) : forkDecision s nb ≠ none := by
+  unfold forkDecision
+  cases hc : isCut s
+  · simp only [Bool.false_eq_true, if_false]
+    have hh : s.stable.height < s.headHeight := by
+      unfold isCut at hc
+      simp only [Bool.or_eq_false_iff, decide_eq_false_iff_not] at hc
+      omega
+    split
+    · simp
+    · have hns : needSwitchFork s (chooseNewFork s.stable s.tree) ≠ none := by
+        unfold needSwitchFork
+        split
+        · rename_i hgt
+          simp only
+          split
+          · rename_i hz
+            exfalso
+            rcases chooseNewFork_mem s.stable s.tree with e | hm
+            · rw [e] at hgt; omega
+            · have := (hp _ hm).1
+              have hl : 0 < (depsAt s (chooseNewFork s.stable s.tree).height).length := List.length_pos_of_mem this
+              unfold twoThirds at hz; omega
+          · simp
+        · simp
+      split
+      · rename_i h; exact absurd h hns
+      · simp
+      · simp
+  · simp
+
+/-- … in every state the engine reaches, for every block. -/
+theorem needSwitchFork_no_panic_reachable {C : Cfg} {s : St} (h : Reach C s) (nb : Blk) : forkDecision s nb ≠ none :=
+  needSwitchFork_no_panic (pinv_reachable (vok_trivial C) h) nb
+
+
+/-! ## no Go panic at all, if every snapshot block carries a loadable deputy list
+
+  This discharges the guard of `Reach` from a condition on the INPUTS: if the deputy list of every
+  snapshot block the node is given (or mines) is one `NewTermRecord` accepts — exactly what C10's
+  finding `c10/snapshot-deputies-not-loadable` says the miner path does not guarantee — then no
+  operation panics, `runP` never stops, and all theorems above hold along the whole history. -/
+
+/-- `NewTermRecord(b.height, b.DeputyNodes)` does not panic if `b` is a snapshot block. -/
+def Loadable (T : Nat) (b : Blk) : Prop := b.snapBad = false ∧ (b.height % T = 0 → b.nextDeps ≠ [])
+
+def GInv (s : St) : Prop := (∀ b ∈ s.tree, Loadable s.termDur b) ∧ (∀ b ∈ s.committed, Loadable s.termDur b)
+
+/-- the condition on one operation. -/
+def OpLoadable (s : St) : Op → Prop
+  | .block b _ => Loadable s.termDur b
+  | .mine b => b.snapBad = false ∧ ((s.headHeight + 1) % s.termDur = 0 → b.nextDeps ≠ [])
+  | _ => True
+
+theorem snap_step_some {T h : Nat} (hT : 0 < T) {terms : List (List Nat)} {x : Blk} (hg : Loadable T x)
+    (hx : x.height = h + 1) (hl : terms.length = h / T + 1) :
+    (if LemoGen.Schedule.IsSnapshotBlock x.height T then saveSnapshot T terms x else some terms) ≠ none := by
+  unfold LemoGen.Schedule.IsSnapshotBlock
+  by_cases hs : x.height % T = 0
+  · have hs' : ((x.height % T) == (0 : Nat)) = true := by simp [hs]
+    rw [if_pos hs']
+    unfold saveSnapshot
+    have hbad : (x.snapBad || x.nextDeps.isEmpty) = false := by
+      rw [hg.1]
+      have := hg.2 hs
+      cases hnd : x.nextDeps with
+      | nil => exact absurd hnd this
+      | cons _ _ => rfl
+    rw [hbad]
+    simp only [Bool.false_eq_true, if_false]
+    have hidx : LemoGen.Schedule.GetDeputyTermIndexByHeight x.height T = h / T + 1 := by
+      unfold LemoGen.Schedule.GetDeputyTermIndexByHeight
+      rw [hx]; exact succ_div_of_dvd hT (hx ▸ hs)
+    rw [hidx]
+    have hne : terms.isEmpty = false := by
+      cases terms with
+      | nil => simp at hl
+      | cons _ _ => rfl
+    rw [hne]
+    simp only [Bool.false_eq_true, if_false]
+    rw [if_neg (by omega), if_pos hl]
+    simp
+  · have hs' : ¬ (((x.height % T) == (0 : Nat)) = true) := by simp [hs]
+    rw [if_neg hs']
+    simp
+
+theorem saveSnapshots_path_some {T root rh : Nat} (hT : 0 < T) {terms : List (List Nat)} (hl : terms.length = rh / T + 1) :
+    ∀ {p : List Blk}, ToRoot root rh p → (∀ x ∈ p, Loadable T x) → saveSnapshots T terms p ≠ none
+  | [x], h, hg => by
+    simp only [ToRoot] at h
+    simp only [saveSnapshots]
+    exact snap_step_some hT (hg x List.mem_cons_self) h.2 hl
+  | x :: y :: rest, h, hg => by
+    simp only [ToRoot] at h
+    have ih := saveSnapshots_path_some hT hl h.2.2 (fun z hz => hg z (List.mem_cons_of_mem _ hz))
+    rw [saveSnapshots]
+    split
+    · rename_i hn; exact absurd hn ih
+    · rename_i t' ht'
+      obtain ⟨_, x', r', hp, hl'⟩ := saveSnapshots_path hT hl h.2.2 ht'
+      cases hp
+      exact snap_step_some hT (hg x List.mem_cons_self) h.2.1 hl'
+
+theorem saveSnapshots_chain_some {T : Nat} (hT : 0 < T) :
+    ∀ {l : List Blk}, Linked l → (∃ g, l.getLast? = some g ∧ g.height = 0) → (∀ x ∈ l, Loadable T x) →
+      saveSnapshots T [] l ≠ none
+  | [], _, hb, _ => by obtain ⟨g, hg, _⟩ := hb; simp at hg
+  | [g], _, hb, hg => by
+    obtain ⟨g', hg', hh⟩ := hb
+    simp at hg'; subst hg'
+    have hgl := hg g List.mem_cons_self
+    simp only [saveSnapshots]
+    unfold LemoGen.Schedule.IsSnapshotBlock
+    have hs' : ((g.height % T) == (0 : Nat)) = true := by simp [hh]
+    rw [if_pos hs']
+    unfold saveSnapshot
+    have hbad : (g.snapBad || g.nextDeps.isEmpty) = false := by
+      rw [hgl.1]
+      have := hgl.2 (by simp [hh])
+      cases hnd : g.nextDeps with
+      | nil => exact absurd hnd this
+      | cons _ _ => rfl
+    rw [hbad]
+    simp
+  | x :: y :: rest, hlk, hb, hg => by
+    simp only [Linked] at hlk
+    have hb' : ∃ g, (y :: rest).getLast? = some g ∧ g.height = 0 := by
+      obtain ⟨g, hg', hh⟩ := hb
+      exact ⟨g, by rw [List.getLast?_cons_cons] at hg'; exact hg', hh⟩
+    have ih := saveSnapshots_chain_some hT hlk.2.2 hb' (fun z hz => hg z (List.mem_cons_of_mem _ hz))
+    rw [saveSnapshots]
+    split
+    · rename_i hn; exact absurd hn ih
+    · rename_i t' ht'
+      obtain ⟨x', r', hp, hl'⟩ := saveSnapshots_chain hT hlk.2.2 hb' ht'
+      cases hp
+      exact snap_step_some hT (hg x List.mem_cons_self) hlk.2.1 hl'
+
+theorem pathUp_sub : ∀ (t : List Blk) (w : Nat), ∀ x ∈ pathUp t w, x ∈ t
+  | [], _, x, hx => by cases hx
+  | y :: rest, w, x, hx => by
+    simp only [pathUp] at hx
+    split at hx
+    · rcases List.mem_cons.1 hx with rfl | hx
+      · exact List.mem_cons_self
+      · exact List.mem_cons_of_mem _ (pathUp_sub rest _ x hx)
+    · exact List.mem_cons_of_mem _ (pathUp_sub rest _ x hx)
+
+theorem replFn_loadable {T : Nat} (nb x : Blk) (h : Loadable T x) : Loadable T (replFn nb x) := by
+  unfold replFn
+  split
+  · exact h
+  · exact h
+
+theorem replaceBlk_loadable {T : Nat} (l : List Blk) (nb : Blk) (h : ∀ b ∈ l, Loadable T b) :
+    ∀ b ∈ replaceBlk l nb, Loadable T b := by
+  intro b hb
+  rw [replaceBlk_eq] at hb
+  rcases List.mem_map.1 hb with ⟨x, hx, rfl⟩
+  exact replFn_loadable nb x (h x hx)
+
+theorem tryConfirmStable_ginv (C : Cfg) {s : St} (b : Blk) (h : GInv s) : GInv (tryConfirmStable C s b) := by
+  obtain ⟨f1, _, f3, _, _, _, f7⟩ := setLastSig_fields s b
+  have h1 : GInv (setLastSig s b) := by
+    unfold GInv; rw [f1, f3, f7.2.1]; exact h
+  unfold tryConfirmStable
+  simp only
+  split
+  · exact h
+  split
+  · exact h
+  split
+  · exact h1
+  · exact ⟨h1.1, replaceBlk_loadable _ _ h1.2⟩
+
+theorem batchConfirm_ginv (C : Cfg) : ∀ (l : List Blk) {s : St}, GInv s → GInv (batchConfirm C s l)
+  | [], _, h => h
+  | b :: older, s, h => by
+    have h1 := batchConfirm_ginv C older h
+    simp only [batchConfirm]
+    split
+    · exact tryConfirmStable_ginv C _ h1
+    · exact h1
+
+theorem updateStableFull_no_panic (C : Cfg) {s : St} (b : Blk) (hi : TInv s) (ht : TermsOK s) (hg : GInv s) :
+    (updateStableFull C s b).2 ≠ .panic ∧ GInv (updateStableFull C s b).1 := by
+  rcases updateStable_cases s b with ⟨e, e2⟩ | ⟨c, hc, hcid, _, _, e⟩
+  · unfold updateStableFull
+    simp only
+    split
+    · rw [e]; exact ⟨by simp, hg⟩
+    · rw [e2]; simp only [Bool.not_false, if_true]
+      rw [e]; exact ⟨by simp, hg⟩
+  · have hpath : ToRoot s.stable.id s.stable.height (pathUp s.tree b.id) := by
+      rw [← hcid]; exact pathUp_toRoot hi.wf c hc
+    have hgood : ∀ x ∈ pathUp s.tree b.id, Loadable s.termDur x := fun x hx => hg.1 x (pathUp_sub _ _ x hx)
+    have hsome := saveSnapshots_path_some hi.tpos ht hpath hgood
+    have gs : GInv (setStable s c) := by
+      refine ⟨?_, ?_⟩
+      · intro x hx
+        exact hg.1 x (descOf_sub _ _ x (List.mem_filter.1 hx).1)
+      · intro x hx
+        have hx' : x ∈ pathUp s.tree c.id ++ s.committed := hx
+        rcases List.mem_append.1 hx' with hx' | hx'
+        · exact hg.1 x (pathUp_sub _ _ x hx')
+        · exact hg.2 x hx'
+    unfold updateStableFull
+    rw [e]
+    simp only [Bool.false_eq_true, if_false, Bool.not_true]
+    have hterms : (setStable s c).terms = s.terms := rfl
+    rw [hterms]
+    split
+    · rename_i hn; exact absurd hn hsome
+    · rename_i t _
+      refine ⟨by simp, ?_⟩
+      exact batchConfirm_ginv C _ (s := { setStable s c with terms := t }) gs
+
 end LemoProofs.C03
